@@ -11,6 +11,7 @@ import (
 	"sort"
 	"strconv"
 	"strings"
+	"time"
 
 	"github.com/nelhage/taktician/ai"
 	"github.com/nelhage/taktician/bitboard"
@@ -76,6 +77,9 @@ type engine struct {
 	ai       *ai.MinimaxAI
 	evals    int
 	cancelAt int
+	// real-context route (ctxc/ctxprev ops): called once, inside the leaf evaluation number hookAt
+	hookAt int
+	hook   func()
 }
 
 func newEngine(size int, tok string) *engine {
@@ -117,6 +121,11 @@ func newEngine(size int, tok string) *engine {
 		e.evals++
 		if e.cancelAt > 0 && e.evals >= e.cancelAt {
 			e.ai.VerifCancel()
+		}
+		if e.hook != nil && e.evals == e.hookAt {
+			h := e.hook
+			e.hook = nil
+			h()
 		}
 		return v
 	}
@@ -196,6 +205,42 @@ func (e *engine) analyze(p *tak.Position, k int) string {
 }
 
 var ctxBackground = context.Background()
+
+// ctxCompare: reference engine with the same history (an uninterrupted Analyze of `before`, if any), then an
+// uninterrupted Analyze of p limited to the depth the observed call reported.
+func ctxCompare(tok string, before, p *tak.Position, pv []tak.Move, v int64, st ai.Stats) string {
+	kv := parseKV(tok)
+	lim := tok
+	if st.Canceled {
+		if st.Depth == 0 {
+			if len(pv) != 0 || v != 0 {
+				return "no-iteration-completed-but-result-returned"
+			}
+			return "ok"
+		}
+		if int64(st.Depth) > kvInt(kv, "d", 0) && kvInt(kv, "d", 0) > 0 {
+			return "reported-depth-above-limit"
+		}
+		lim = tok + ",d=" + strconv.Itoa(st.Depth)
+	}
+	ref := newEngine(p.Size(), lim)
+	if before != nil {
+		full := newEngine(p.Size(), tok)
+		full.ai.Analyze(ctxBackground, before)
+		// the reference for a truncated search needs the same prior history under the depth limit of the first call
+		// (tok), then the limited depth: rebuild through VerifSetDepth is not available, so only uncancelled results
+		// are compared on engines with history
+		if st.Canceled {
+			return "ok"
+		}
+		ref = full
+	}
+	pv2, v2, st2 := ref.ai.Analyze(ctxBackground, p)
+	if v != v2 || st.Depth != st2.Depth || fmtPV(pv) != fmtPV(pv2) {
+		return fmt.Sprintf("differs got=%s/%d/d%d want=%s/%d/d%d", fmtPV(pv), v, st.Depth, fmtPV(pv2), v2, st2.Depth)
+	}
+	return "ok"
+}
 
 func optK(a []string, i int) int {
 	if len(a) > i {
@@ -350,6 +395,43 @@ func init() {
 			parts[i] = fmtPV(pv)
 		}
 		return fmt.Sprintf("pvs=%s v=%d %s %s", strings.Join(parts, "|"), v, fmtStats(st), digEngine(e))
+	}
+	// ---- the real cancellation path: context -> watcher goroutine -> flag.  The moment the flag becomes visible is up
+	// to the scheduler, so these ops print the property-level comparison only ("ok" is required by C16.cancel_truncates
+	// whatever that moment is): the result equals an uninterrupted Analyze limited to the reported depth, from the same
+	// engine state (here: engines with identical histories).
+	opTable["ctxc"] = func(s *Session, a []string) string {
+		p := decPos(a[1])
+		k := atoi(a[2])
+		e := newEngine(p.Size(), a[0])
+		ctx, cancel := context.WithCancel(context.Background())
+		defer cancel()
+		e.evals, e.cancelAt = 0, 0
+		e.hookAt, e.hook = k, func() { cancel(); time.Sleep(500 * time.Microsecond) }
+		pv, v, st := e.ai.Analyze(ctx, p)
+		e.hook = nil
+		return ctxCompare(a[0], nil, p, pv, v, st)
+	}
+	// ctxprev: Analyze(ctx1, p1) runs to the end with ctx1 still live; ctx1 ends while the same engine analyses p2 under a
+	// context of its own that never ends.  The second result must be the uninterrupted one.
+	opTable["ctxprev"] = func(s *Session, a []string) string {
+		p1, p2 := decPos(a[1]), decPos(a[2])
+		k := atoi(a[3])
+		e := newEngine(p1.Size(), a[0])
+		ctx1, cancel1 := context.WithCancel(context.Background())
+		defer cancel1()
+		e.evals, e.cancelAt = 0, 0
+		e.ai.Analyze(ctx1, p1)
+		ctx2, cancel2 := context.WithCancel(context.Background())
+		defer cancel2()
+		e.evals = 0
+		e.hookAt, e.hook = k, func() { cancel1(); time.Sleep(500 * time.Microsecond) }
+		pv, v, st := e.ai.Analyze(ctx2, p2)
+		e.hook = nil
+		if st.Canceled {
+			return fmt.Sprintf("second-search-cancelled-by-first-context d=%d", st.Depth)
+		}
+		return ctxCompare(a[0], p1, p2, pv, v, st)
 	}
 	opTable["sval"] = func(s *Session, a []string) string {
 		p := decPos(a[1])
